@@ -8,7 +8,8 @@ From Coq Require Import Lia.
 Local Open Scope net_scope.
 
 (* ---- the walk over the unfolded tree (same primitive operations, same order) ---- *)
-Definition pg_block_go (pg : nat -> xstmt -> nat -> nat -> NetModel.N (list nat)) (ctx : nat) (n last : nat)
+Definition pg_block_go (pg : sinfo -> nat -> xstmt -> nat -> nat -> NetModel.N (list nat)) (tn : name) (pre : list nat)
+           (ctx : nat) (n last : nat)
   : nat -> list xstmt -> nat -> list nat -> NetModel.N (list nat) :=
   fix go (i : nat) (l : list xstmt) (prev : nat) (acc : list nat) : NetModel.N (list nat) :=
     match l with
@@ -17,19 +18,20 @@ Definition pg_block_go (pg : nat -> xstmt -> nat -> nat -> NetModel.N (list nat)
       cur <~ (if Nat.ltb 1 n
               then (if Nat.ltb i (n - 1) then create_transition else nret last)
               else nret last) ;;
-      ex <~ pg ctx s prev cur ;;
+      ex <~ pg (mksi tn pre i) ctx s prev cur ;;
       go (S i) r cur ex
     end.
 
-Definition pg_calls (pg : nat -> xstmt -> nat -> nat -> NetModel.N (list nat)) (ctx t1 sync : nat)
-  : list xstmt -> NetModel.N unit :=
-  fix calls (l : list xstmt) : NetModel.N unit :=
+Definition pg_calls (pg : sinfo -> nat -> xstmt -> nat -> nat -> NetModel.N (list nat)) (tn : name) (pre : list nat)
+           (ctx t1 sync : nat)
+  : nat -> list xstmt -> NetModel.N unit :=
+  fix calls (i : nat) (l : list xstmt) : NetModel.N unit :=
     match l with
     | [] => nret tt
-    | b :: r => pg ctx b t1 sync ;;~ calls r
+    | b :: r => pg (mksi tn pre i) ctx b t1 sync ;;~ calls (S i) r
     end.
 
-Fixpoint pg_stmt (il : bool) (ctx : nat) (s : xstmt) (t1 t2 : nat) {struct s} : NetModel.N (list nat) :=
+Fixpoint pg_stmt (il : bool) (k : sinfo) (ctx : nat) (s : xstmt) (t1 t2 : nat) {struct s} : NetModel.N (list nat) :=
   match s with
   | XService n at_ ins => generate_service n ins at_ ctx t1 t2 il
   | XCall t at_ ins body =>
@@ -37,13 +39,13 @@ Fixpoint pg_stmt (il : bool) (ctx : nat) (s : xstmt) (t1 t2 : nat) {struct s} : 
     a <~ new_api {| a_is_task := true; a_name := t; a_site := at_; a_uuid := u; a_ctx := Some ctx;
                     a_in_loop := il; a_params := ins; a_src := ins; a_has_call := true |} ;;
     add_callback t1 (CbTS a) ;;~
-    ex <~ pg_block_go (pg_stmt il) a (List.length body) t2 0 body t1 [] ;;
+    ex <~ pg_block_go (pg_stmt il) t [] a (List.length body) t2 0 body t1 [] ;;
     nfor ex (fun e => add_callback e (CbTF a)) ;;~
     nret ex
   | XParallel bs =>
     sync <~ create_transition ;;
     pfin <~ create_place ;;
-    pg_calls (pg_stmt il) ctx t1 sync bs ;;~
+    pg_calls (pg_stmt il) (s_tn k) (s_path k) ctx t1 sync 0 bs ;;~
     add_output pfin sync ;;~
     add_input pfin t2 ;;~
     nret [sync]
@@ -60,7 +62,7 @@ Fixpoint pg_stmt (il : bool) (ctx : nat) (s : xstmt) (t1 t2 : nat) {struct s} : 
     cfin <~ create_place ;;
     sp <~ create_transition ;;
     add_output cfin sp ;;~
-    pg_block_go (pg_stmt il) ctx (List.length P) sp 0 P fp [] ;;~
+    pg_block_go (pg_stmt il) (s_tn k) (s_path k ++ [0]) ctx (List.length P) sp 0 P fp [] ;;~
     add_output expr_p t1 ;;~
     add_input cfin t2 ;;~
     add_callback t1 (CbCond e passed failed ctx) ;;~
@@ -68,7 +70,7 @@ Fixpoint pg_stmt (il : bool) (ctx : nat) (s : xstmt) (t1 t2 : nat) {struct s} : 
     | [] => add_output cfin ff ;;~ nret [sp; ff]
     | _ :: _ =>
       sf <~ create_transition ;;
-      pg_block_go (pg_stmt il) ctx (List.length F) sf 0 F ff [] ;;~
+      pg_block_go (pg_stmt il) (s_tn k) (s_path k ++ [1]) ctx (List.length F) sf 0 F ff [] ;;~
       add_output cfin sf ;;~
       nret [sp; sf]
     end
@@ -85,18 +87,39 @@ Fixpoint pg_stmt (il : bool) (ctx : nat) (s : xstmt) (t1 t2 : nat) {struct s} : 
     add_input else_p cf ;;~
     add_output loop_p it ;;~
     ldone <~ create_place ;;
-    pg_block_go (pg_stmt true) ctx (List.length B) it 0 B cp [] ;;~
+    pg_block_go (pg_stmt true) (s_tn k) (s_path k) ctx (List.length B) it 0 B cp [] ;;~
     add_output loop_p t1 ;;~
     add_input ldone t2 ;;~
     add_callback t1 (CbWhile e then_p else_p ctx) ;;~
     add_callback it (CbWhile e then_p else_p ctx) ;;~
     add_output ldone cf ;;~
     nret [cf]
+  | XCount v lim B =>
+    loop_p <~ create_place ;;
+    then_p <~ create_place ;;
+    else_p <~ create_place ;;
+    cp <~ create_transition ;;
+    cf <~ create_transition ;;
+    it <~ create_transition ;;
+    add_input loop_p cp ;;~
+    add_input then_p cp ;;~
+    add_input loop_p cf ;;~
+    add_input else_p cf ;;~
+    add_output loop_p it ;;~
+    ldone <~ create_place ;;
+    pg_block_go (pg_stmt true) (s_tn k) (s_path k) ctx (List.length B) it 0 B cp [] ;;~
+    add_output ldone cf ;;~
+    add_output loop_p t1 ;;~
+    add_input ldone t2 ;;~
+    add_callback t1 (CbCount {| st_task := s_tn k; st_path := s_path k |} lim then_p else_p ctx) ;;~
+    add_callback it (CbCount {| st_task := s_tn k; st_path := s_path k |} lim then_p else_p ctx) ;;~
+    nret [cf]
   | _ => nfail Unsupported
   end.
 
-Definition pg_block (il : bool) (ctx : nat) (body : list xstmt) (first last : nat) : NetModel.N (list nat) :=
-  pg_block_go (pg_stmt il) ctx (List.length body) last 0 body first [].
+Definition pg_block (il : bool) (tn : name) (pre : list nat) (ctx : nat) (body : list xstmt) (first last : nat)
+  : NetModel.N (list nat) :=
+  pg_block_go (pg_stmt il) tn pre ctx (List.length body) last 0 body first [].
 
 (* ---- the primitive operations as state transformers ---- *)
 Definition op_place (s : NS) : NS := s <| ns_places := ns_places s ++ [Some 0] |>.
@@ -292,11 +315,16 @@ Ltac gstep :=
         | rewrite (nbind_ok _ _ _ _ _ _ _ (add_callback_eq _ _ _))
         | rewrite (nbind_ok _ _ _ _ _ _ _ (dict_mod_eq _ _ _)) ].
 
-Definition pos_of (s : NS) : pos :=
-  mkpos (List.length (ns_places s)) (List.length (ns_trans s)) (List.length (ns_apis s)).
+Definition pos_of (k : sinfo) (s : NS) : pos :=
+  mkpos (List.length (ns_places s)) (List.length (ns_trans s)) (List.length (ns_apis s)) k.
+Definition si_add (n : nat) (k : sinfo) : sinfo := mksi (s_tn k) (s_pre k) (s_idx k + n).
+Lemma pos_ext : forall p q, pp p = pp q -> pt p = pt q -> pa p = pa q -> psi p = psi q -> p = q.
+Proof. intros [] [] H1 H2 H3 H4. cbn in *. subst. reflexivity. Qed.
+Lemma si_ext : forall a b, s_tn a = s_tn b -> s_pre a = s_pre b -> s_idx a = s_idx b -> a = b.
+Proof. intros [] [] H1 H2 H3. cbn in *. subst. reflexivity. Qed.
 
-Lemma generate_service_eq : forall il n ins at_ ctx t1 t2 s,
-    let p := pos_of s in
+Lemma generate_service_eq : forall il k n ins at_ ctx t1 t2 s,
+    let p := pos_of k s in
     generate_service n ins at_ ctx t1 t2 il s
     = Ok ([pt p],
           op_in (pp p + 2) t2 (op_out (pp p) t1 (op_out (pp p + 2) (pt p) (op_in (pp p + 1) (pt p) (op_in (pp p) (pt p)
@@ -347,15 +375,15 @@ Ltac eqb_cases :=
          | |- context [Nat.ltb ?a ?b] => destruct (Nat.ltb_spec a b); try lia
          end.
 
-Lemma gen_service : forall il n ins at_ ctx t1 t2 s,
+Lemma gen_service : forall il k n ins at_ ctx t1 t2 s,
     okns s -> t1 < List.length (ns_trans s) -> t2 < List.length (ns_trans s) ->
-    let p := pos_of s in
+    let p := pos_of k s in
     exists s', generate_service n ins at_ ctx t1 t2 il s = Ok (exits (XService n at_ ins) p, s') /\
                Gen s s' t1 t2 [pp p] [CbSS (pa p)] [pp p + 2] /\
-               pos_of s' = adv (XService n at_ ins) p /\ okns s' /\
+               pos_of (si_next k) s' = adv (XService n at_ ins) p /\ okns s' /\
                wired s' (XService n at_ ins) p ctx [].
 Proof.
-  intros il n ins at_ ctx t1 t2 s [Hcb Hfr] H1 H2 p. rewrite generate_service_eq. fold p.
+  intros il k n ins at_ ctx t1 t2 s [Hcb Hfr] H1 H2 p. rewrite (generate_service_eq il k). fold p.
   eexists. split; [reflexivity|].
   assert (Hp : pt p = List.length (ns_trans s)) by reflexivity.
   assert (Hpp : pp p = List.length (ns_places s)) by reflexivity.
@@ -519,47 +547,60 @@ Qed.
 
 (* ---- the statement proved by induction over the unfolded tree ---- *)
 Definition GenOK (s : xstmt) : Prop :=
-  frag s = true -> forall il ctx t1 t2 ns,
+  frag s = true -> forall il k ctx t1 t2 ns,
     okns ns -> t1 < List.length (ns_trans ns) -> t2 < List.length (ns_trans ns) ->
-    let p := pos_of ns in
-    exists ns', pg_stmt il ctx s t1 t2 ns = Ok (exits s p, ns') /\
+    let p := pos_of k ns in
+    exists ns', pg_stmt il k ctx s t1 t2 ns = Ok (exits s p, ns') /\
                 Gen ns ns' t1 t2 (entries s p) (startcbs s p ctx) [xplace s p] /\
-                pos_of ns' = adv s p /\ okns ns' /\ wired ns' s p ctx [].
+                pos_of (si_next k) ns' = adv s p /\ okns ns' /\ wired ns' s p ctx [].
 
 Definition adv_l (l : list xstmt) (q : pos) : pos :=
-  mkpos (pp q + nplaces_l l) (pt q + ntrans_l l) (pa q + napis_l l).
+  mkpos (pp q + nplaces_l l) (pt q + ntrans_l l) (pa q + napis_l l) (si_add (List.length l) (psi q)).
 Definition adv_b (l : list xstmt) (q : pos) : pos :=
-  mkpos (pp q + nplaces_l l) (pt q + ntrans_b l) (pa q + napis_l l).
+  mkpos (pp q + nplaces_l l) (pt q + ntrans_b l) (pa q + napis_l l) (si_add (List.length l) (psi q)).
 
-Lemma startcbs_call_eq : forall t a i bd p ctx, startcbs (XCall t a i bd) p ctx = CbTS (pa p) :: startcbs_b bd (body_pos p) (pa p).
+Lemma startcbs_call_eq : forall t a i bd p ctx, startcbs (XCall t a i bd) p ctx = CbTS (pa p) :: startcbs_b bd (body_pos t p) (pa p).
 Proof. reflexivity. Qed.
 
-Lemma pos_eta : forall p, mkpos (pp p) (pt p) (pa p) = p.
+Lemma pos_eta : forall p, mkpos (pp p) (pt p) (pa p) (psi p) = p.
 Proof. intros []; reflexivity. Qed.
+Definition resite (k : sinfo) (p : pos) : pos := mkpos (pp p) (pt p) (pa p) k.
+Lemma pos_of_resite : forall k k' s q, pos_of k s = q -> pos_of k' s = resite k' q.
+Proof. intros k k' s q <-. reflexivity. Qed.
+Lemma pos_of_same : forall k s s', ns_places s = ns_places s' -> List.length (ns_trans s) = List.length (ns_trans s') ->
+    ns_apis s = ns_apis s' -> pos_of k s = pos_of k s'.
+Proof. intros k s s' A B C. unfold pos_of. rewrite A, B, C. reflexivity. Qed.
+Lemma si_add_0 : forall k, si_add 0 k = k.
+Proof. intros [a b c]. unfold si_add. cbn. rewrite Nat.add_0_r. reflexivity. Qed.
+Lemma si_add_S : forall n k, si_add n (si_next k) = si_add (S n) k.
+Proof. intros n [a b c]. unfold si_add, si_next. cbn. f_equal. lia. Qed.
 
 Lemma gen_calls : forall l, Forall GenOK l -> frag_brs l = true ->
-    forall il ctx t1 sync ns,
+    forall il tn pre i ctx t1 sync ns,
       okns ns -> t1 < List.length (ns_trans ns) -> sync < List.length (ns_trans ns) ->
-      let q := pos_of ns in
-      exists ns', pg_calls (pg_stmt il) ctx t1 sync l ns = Ok (tt, ns') /\
+      let q := pos_of (mksi tn pre i) ns in
+      exists ns', pg_calls (pg_stmt il) tn pre ctx t1 sync i l ns = Ok (tt, ns') /\
                   Gen ns ns' t1 sync (cat_of entries l q) (cat_of (fun b q => startcbs b q ctx) l q) (cat_of (fun b q => [xplace b q]) l q) /\
-                  pos_of ns' = adv_l l q /\ okns ns' /\ wired_list (wired ns') ctx l q.
+                  pos_of (mksi tn pre (i + List.length l)) ns' = adv_l l q /\ okns ns' /\ wired_list (wired ns') ctx l q.
 Proof.
-  induction l as [|b r IH]; intros HF Hf il ctx t1 sync ns Hok H1 H2 q.
+  induction l as [|b r IH]; intros HF Hf il tn pre i ctx t1 sync ns Hok H1 H2 q.
   - exists ns. split; [reflexivity|]. split; [|split; [|split; [exact Hok|exact I]]].
     + unfold Gen. eapply GenF_ext; [apply GenF_refl|]. intros j _. cbn [cat_of]. unfold fnil.
       destruct (Nat.eqb j sync), (Nat.eqb j t1); auto.
-    + unfold adv_l, nplaces_l, ntrans_l, napis_l. cbn [map list_sum fold_right]. rewrite !Nat.add_0_r. symmetry. apply pos_eta.
+    + unfold adv_l, nplaces_l, ntrans_l, napis_l, q, pos_of, si_add. cbn [map list_sum fold_right List.length pp pt pa psi s_tn s_pre s_idx]. rewrite !Nat.add_0_r. reflexivity.
   - inversion HF as [|? ? Hb Hr]; subst. apply frag_brs_cons in Hf. destruct Hf as (_ & Hfb & Hfr).
-    destruct (Hb Hfb il ctx t1 sync ns Hok H1 H2) as (ns1 & E1 & G1 & P1 & Ok1 & W1). fold q in E1, G1, P1, W1.
+    destruct (Hb Hfb il (mksi tn pre i) ctx t1 sync ns Hok H1 H2) as (ns1 & E1 & G1 & P1 & Ok1 & W1). fold q in E1, G1, P1, W1.
+    change (si_next (mksi tn pre i)) with (mksi tn pre (S i)) in P1.
     assert (L1 : List.length (ns_trans ns) <= List.length (ns_trans ns1)) by (apply (gn_ntr _ _ _ _ _ G1)).
-    destruct (IH Hr Hfr il ctx t1 sync ns1 Ok1 ltac:(lia) ltac:(lia)) as (ns2 & E2 & G2 & P2 & Ok2 & W2).
+    destruct (IH Hr Hfr il tn pre (S i) ctx t1 sync ns1 Ok1 ltac:(lia) ltac:(lia)) as (ns2 & E2 & G2 & P2 & Ok2 & W2).
     rewrite ?P1 in G2, P2, W2.
     exists ns2. split; [|split; [|split; [|split; [exact Ok2|]]]].
     + cbn [pg_calls]. unfold nbind. rewrite E1. exact E2.
     + unfold Gen in *. eapply GenF_ext; [eapply GenF_trans; [exact G1|exact G2]|].
       intros j Hj. cbn beta. cbn [cat_of]. destruct (Nat.eqb j sync), (Nat.eqb j t1); auto.
-    + rewrite P2. unfold adv_l, adv. cbn [pp pt pa]. rewrite nplaces_l_cons, ntrans_l_cons, napis_l_cons. f_equal; lia.
+    + cbn [List.length]. replace (i + S (List.length r)) with (S i + List.length r) by lia. rewrite P2.
+      unfold adv_l, adv, q, pos_of, si_add, si_next. cbn [pp pt pa psi s_tn s_pre s_idx List.length]. rewrite nplaces_l_cons, ntrans_l_cons, napis_l_cons.
+      f_equal; try lia. f_equal. lia.
     + cbn [wired_list]. split; [|exact W2].
       apply (wired_ext ns1 ns2 b Hfb q ctx []); [|exact W1].
       eapply GenF_agree; [exact G2| | |].
@@ -573,19 +614,19 @@ Qed.
 
 Lemma okns_op_trans : forall s, okns s -> okns (op_trans s).
 Proof. intros s [H1 H2]. split; autorewrite with netops; [lia|exact H2]. Qed.
-Lemma pos_op_trans : forall s, pos_of (op_trans s) = conn_skip (pos_of s).
-Proof. intro s. unfold pos_of, conn_skip. autorewrite with netops. reflexivity. Qed.
+Lemma pos_op_trans : forall k s, pos_of k (op_trans s) = conn_skip (pos_of k s).
+Proof. intros k s. unfold pos_of, conn_skip. autorewrite with netops. reflexivity. Qed.
 
 Lemma gen_block_go : forall l, Forall GenOK l -> frag_block l = true ->
-    forall il n i prev acc ctx last ns,
+    forall il tn pre n i prev acc ctx last ns,
       i + List.length l = n -> okns ns ->
       prev < List.length (ns_trans ns) -> last < List.length (ns_trans ns) ->
-      let p := pos_of ns in
-      exists ns', pg_block_go (pg_stmt il) ctx n last i l prev acc ns = Ok (exits_b l p, ns') /\
+      let p := pos_of (mksi tn pre i) ns in
+      exists ns', pg_block_go (pg_stmt il) tn pre ctx n last i l prev acc ns = Ok (exits_b l p, ns') /\
                   Gen ns ns' prev last (entries_b l p) (startcbs_b l p ctx) [xplace_b l p] /\
-                  pos_of ns' = adv_b l p /\ okns ns' /\ wired_block (wired ns') ns' ctx [] l p.
+                  pos_of (mksi tn pre (i + List.length l)) ns' = adv_b l p /\ okns ns' /\ wired_block (wired ns') ns' ctx [] l p.
 Proof.
-  induction l as [|s r IH]; intros HF Hf il n i prev acc ctx last ns Hn Hok H1 H2 p; [discriminate|].
+  induction l as [|s r IH]; intros HF Hf il tn pre n i prev acc ctx last ns Hn Hok H1 H2 p; [discriminate|].
   inversion HF as [|? ? Hs Hr]; subst. apply frag_block_cons in Hf. destruct Hf as [Hfs Hfr].
   destruct r as [|s' r].
   - (* last statement: wired to [last] *)
@@ -594,11 +635,13 @@ Proof.
                    = nret last).
     { replace (i + 1 - 1) with i by lia. rewrite Nat.ltb_irrefl. destruct (Nat.ltb 1 (i + 1)); reflexivity. }
     rewrite Ecur. unfold nbind at 1. unfold nret at 1.
-    destruct (Hs Hfs il ctx prev last ns Hok H1 H2) as (ns1 & E1 & G1 & P1 & Ok1 & W1). fold p in E1, G1, P1, W1.
+    destruct (Hs Hfs il (mksi tn pre i) ctx prev last ns Hok H1 H2) as (ns1 & E1 & G1 & P1 & Ok1 & W1). fold p in E1, G1, P1, W1.
+    change (si_next (mksi tn pre i)) with (mksi tn pre (S i)) in P1.
     exists ns1. split; [|split; [|split; [|split; [exact Ok1|]]]].
     + unfold nbind. rewrite E1. reflexivity.
     + exact G1.
-    + rewrite P1. unfold adv, adv_b. rewrite nplaces_l_one, napis_l_one, ntrans_b_one. reflexivity.
+    + replace (i + 1) with (S i) by lia. rewrite P1. unfold adv, adv_b, p, pos_of, si_add, si_next. cbn [pp pt pa psi s_tn s_pre s_idx List.length].
+      rewrite nplaces_l_one, napis_l_one, ntrans_b_one. f_equal. f_equal. lia.
     + exact W1.
   - destruct Hfr as [Hfr|Hfr]; [discriminate|].
     cbn [pg_block_go]. cbn [List.length] in *.
@@ -611,11 +654,12 @@ Proof.
     assert (Hc0 : cur = List.length (ns_trans ns)) by reflexivity.
     pose proof (okns_op_trans ns Hok) as Ok0.
     assert (L0 : List.length (ns_trans (op_trans ns)) = S cur) by (autorewrite with netops; reflexivity).
-    destruct (Hs Hfs il ctx prev cur (op_trans ns) Ok0 ltac:(lia) ltac:(lia)) as (ns1 & E1 & G1 & P1 & Ok1 & W1).
+    destruct (Hs Hfs il (mksi tn pre i) ctx prev cur (op_trans ns) Ok0 ltac:(lia) ltac:(lia)) as (ns1 & E1 & G1 & P1 & Ok1 & W1).
+    change (si_next (mksi tn pre i)) with (mksi tn pre (S i)) in P1.
     rewrite pos_op_trans in E1, G1, P1, W1. fold p in E1, G1, P1, W1.
     set (ps := conn_skip p) in *.
     assert (L1 : S cur <= List.length (ns_trans ns1)) by (rewrite <- L0; apply (gn_ntr _ _ _ _ _ G1)).
-    destruct (IH Hr Hfr il (i + S (S (List.length r))) (S i) cur (exits s ps) ctx last ns1 ltac:(cbn [List.length]; lia) Ok1 ltac:(lia) ltac:(lia))
+    destruct (IH Hr Hfr il tn pre (i + S (S (List.length r))) (S i) cur (exits s ps) ctx last ns1 ltac:(cbn [List.length]; lia) Ok1 ltac:(lia) ltac:(lia))
       as (ns2 & E2 & G2 & P2 & Ok2 & W2).
     rewrite ?P1 in E2, G2, P2, W2. set (pr := adv s ps) in *.
     exists ns2. split; [|split; [|split; [|split; [exact Ok2|]]]].
@@ -626,8 +670,9 @@ Proof.
       assert (Ec : Nat.eqb j cur = false) by (apply Nat.eqb_neq; lia). rewrite Ec. cbn [app].
       unfold xplace_b. rewrite last_of_cons. fold ps. fold pr. rewrite !app_nil_r.
       unfold entries_b, startcbs_b. cbn [first_pos]. fold ps. auto.
-    + rewrite P2. unfold adv_b, pr, adv, ps, conn_skip, p, pos_of. cbn [pp pt pa].
-      rewrite !nplaces_l_cons, !napis_l_cons, ntrans_b_cons. f_equal; lia.
+    + replace (i + S (S (List.length r))) with (S i + S (List.length r)) by lia. rewrite P2.
+      unfold adv_b, pr, adv, ps, conn_skip, p, pos_of, si_add, si_next. cbn [pp pt pa psi s_tn s_pre s_idx List.length].
+      rewrite !nplaces_l_cons, !napis_l_cons, ntrans_b_cons. f_equal; try lia. f_equal. lia.
     + cbn [wired_block]. cbv zeta. fold ps. fold pr.
       assert (Hcur : pt p = cur) by reflexivity. rewrite Hcur.
       assert (Ecl : Nat.eqb cur last = false) by (apply Nat.eqb_neq; unfold cur; lia).
@@ -729,6 +774,7 @@ Proof.
   - constructor; [intros []|constructor].
   - destruct F; (constructor; [intros [E|[]]; fold (ntrans_b P) in E; lia|constructor; [intros []|constructor]]).
   - constructor; [intros []|constructor].
+  - constructor; [intros []|constructor].
 Qed.
 
 Lemma exits_nodup_b : forall l, frag_block l = true -> forall p, NoDup (exits_b l p).
@@ -764,7 +810,7 @@ Qed.
 
 Lemma gen_call : forall t at_ ins body, Forall GenOK body -> GenOK (XCall t at_ ins body).
 Proof.
-  intros t at_ ins body HF Hf il ctx t1 t2 ns Hok H1 H2 p.
+  intros t at_ ins body HF Hf il k ctx t1 t2 ns Hok H1 H2 p.
   apply frag_call in Hf. destruct Hf as [_ Hfb].
   destruct Hok as [Hcb Hfr].
   cbn [pg_stmt]. rewrite nbind_fresh, nbind_new_api.
@@ -775,12 +821,13 @@ Proof.
   set (ns1 := op_cb t1 (CbTS a) (op_api A ns)).
   assert (Ok1 : okns ns1).
   { unfold ns1. split; autorewrite with netops; [exact Hcb|]. rewrite app_length. cbn [List.length]. lia. }
-  assert (P1 : pos_of ns1 = body_pos p).
+  assert (P1 : pos_of (si_task t) ns1 = body_pos t p).
   { unfold ns1, pos_of, body_pos, p, pos_of. autorewrite with netops. rewrite app_length. cbn [List.length pp pt pa]. f_equal. lia. }
   assert (Lt1 : List.length (ns_trans ns1) = List.length (ns_trans ns)) by (unfold ns1; autorewrite with netops; reflexivity).
-  destruct (gen_block_go body HF Hfb il (List.length body) 0 t1 [] a t2 ns1 eq_refl Ok1 ltac:(lia) ltac:(lia))
+  destruct (gen_block_go body HF Hfb il t [] (List.length body) 0 t1 [] a t2 ns1 eq_refl Ok1 ltac:(lia) ltac:(lia))
     as (ns2 & E2 & G2 & P2 & Ok2 & W2).
-  rewrite P1 in E2, G2, P2, W2. set (bp := body_pos p) in *.
+  change (mksi t [] 0) with (si_task t) in E2, G2, P2, W2.
+  rewrite P1 in E2, G2, P2, W2. set (bp := body_pos t p) in *.
   pose proof (exits_range_b body Hfb bp) as [_ Hex].
   assert (Lt2 : List.length (ns_trans ns2) = pt bp + ntrans_b body).
   { pose proof (f_equal pt P2) as E. unfold pos_of, adv_b in E. cbn [pt] in E. exact E. }
@@ -802,8 +849,9 @@ Proof.
     split; [reflexivity|]. split; [reflexivity|].
     rewrite startcbs_call_eq. destruct (Nat.eqb j t1); reflexivity.
   - destruct (op_cbs_facts es (CbTF a) ns2 Hnd Hlt) as (_ & A' & _ & P' & T' & _).
-    unfold pos_of in *. rewrite A', P', T', P2. unfold adv_b, adv, bp, body_pos.
-    cbn [pp pt pa]. rewrite nplaces_call, ntrans_call, napis_call. f_equal. lia.
+    rewrite (pos_of_same _ _ ns2 P' T' A'), (pos_of_resite _ (si_next k) _ _ P2).
+    unfold resite, adv_b, adv, bp, body_pos, p, pos_of.
+    cbn [pp pt pa psi]. rewrite nplaces_call, ntrans_call, napis_call. f_equal. lia.
   - destruct (op_cbs_facts es (CbTF a) ns2 Hnd Hlt) as (_ & A' & _ & _ & T' & C' & F' & _).
     destruct Ok2 as [Hcb2 Hfr2]. split; [rewrite C', T'; exact Hcb2|rewrite F', A'; exact Hfr2].
   - cbn [wired]. split.
@@ -818,7 +866,7 @@ Qed.
 
 Lemma gen_par : forall bs, Forall GenOK bs -> GenOK (XParallel bs).
 Proof.
-  intros bs HF Hf il ctx t1 t2 ns Hok H1 H2 p.
+  intros bs HF Hf il k ctx t1 t2 ns Hok H1 H2 p.
   apply frag_par in Hf. destruct Hf as [_ Hfb].
   cbn [pg_stmt]. rewrite (nbind_ok _ _ _ _ _ _ _ (create_transition_eq _)).
   rewrite (nbind_ok _ _ _ _ _ _ _ (create_place_eq _)).
@@ -829,10 +877,11 @@ Proof.
   set (ns1 := op_place (op_trans ns)).
   assert (Ok1 : okns ns1).
   { destruct Hok as [Hcb Hfr]. unfold ns1. split; autorewrite with netops; [lia|exact Hfr]. }
-  assert (P1 : pos_of ns1 = par_pos p).
-  { unfold ns1, pos_of, par_pos, p, pos_of. autorewrite with netops. rewrite app_length. cbn [List.length pp pt pa]. f_equal. lia. }
+  assert (P1 : pos_of (si_sub k) ns1 = par_pos p).
+  { unfold ns1, pos_of, par_pos, p, pos_of. autorewrite with netops. rewrite app_length. cbn [List.length pp pt pa psi]. f_equal. lia. }
   assert (Lt1 : List.length (ns_trans ns1) = S sync) by (unfold ns1; autorewrite with netops; reflexivity).
-  destruct (gen_calls bs HF Hfb il ctx t1 sync ns1 Ok1 ltac:(lia) ltac:(lia)) as (ns2 & E2 & G2 & P2 & Ok2 & W2).
+  destruct (gen_calls bs HF Hfb il (s_tn k) (s_path k) 0 ctx t1 sync ns1 Ok1 ltac:(lia) ltac:(lia)) as (ns2 & E2 & G2 & P2 & Ok2 & W2).
+  change (mksi (s_tn k) (s_path k) 0) with (si_sub k) in E2, G2, P2, W2.
   rewrite P1 in G2, P2, W2. set (q := par_pos p) in *.
   assert (Lt2 : List.length (ns_trans ns2) = pt q + ntrans_l bs).
   { pose proof (f_equal pt P2) as E. unfold pos_of, adv_l in E. cbn [pt] in E. exact E. }
@@ -856,8 +905,9 @@ Proof.
     intros j Hj. cbn beta. unfold fnil. cbn [app]. rewrite !app_nil_r.
     assert (Ee : Nat.eqb j sync = false) by (apply Nat.eqb_neq; lia). rewrite Ee. cbn [app].
     rewrite ?app_nil_r. split; [reflexivity|]. split; reflexivity.
-  - unfold ns3, pos_of in *. autorewrite with netops. rewrite P2. unfold adv_l, adv, q, par_pos.
-    cbn [pp pt pa]. rewrite nplaces_par, ntrans_par, napis_par. f_equal; lia.
+  - rewrite (pos_of_same _ ns3 ns2) by (unfold ns3; autorewrite with netops; reflexivity).
+    rewrite (pos_of_resite _ (si_next k) _ _ P2). unfold resite, adv_l, adv, q, par_pos, p, pos_of.
+    cbn [pp pt pa psi]. rewrite nplaces_par, ntrans_par, napis_par. f_equal; lia.
   - destruct Ok2 as [Hcb2 Hfr2]. unfold ns3. split; autorewrite with netops; assumption.
   - cbn [wired]. fold q. assert (Hp : pt p = sync) by reflexivity. rewrite Hp.
     rewrite (gn_pre _ _ _ _ _ G13 sync), (gn_post _ _ _ _ _ G13 sync), (gn_cbs _ _ _ _ _ G13 sync) by lia.
@@ -880,7 +930,7 @@ Qed.
 
 Lemma gen_cond0 : forall e P, Forall GenOK P -> GenOK (XCond e P []).
 Proof.
-  intros e P HFP Hf il ctx t1 t2 ns Hok H1 H2 p.
+  intros e P HFP Hf il k ctx t1 t2 ns Hok H1 H2 p.
   apply frag_cond0 in Hf. rename Hf into HfP.
   pose proof Hok as [Hcb Hfr].
   cbn [pg_stmt].
@@ -895,14 +945,15 @@ Proof.
   replace (pp0 + 1) with (S pp0) by lia. replace (S pp0 + 1) with (S (S pp0)) by lia.
   replace (S (S pp0) + 1) with (S (S (S pp0))) by lia.
   set (nsA := op_out _ _ _).
-  assert (PA : pos_of nsA = cond_p p).
-  { unfold nsA, pos_of, cond_p, p, pos_of. autorewrite with netops. rewrite !app_length. cbn [List.length pp pt pa].
+  assert (PA : pos_of (si_sub2 0 k) nsA = cond_p p).
+  { unfold nsA, pos_of, cond_p, p, pos_of. autorewrite with netops. rewrite !app_length. cbn [List.length pp pt pa psi].
     fold pp0 pt0 pa0. f_equal; lia. }
   assert (OkA : okns nsA).
   { unfold nsA. split; autorewrite with netops; [lia|exact Hfr]. }
   assert (LtA : List.length (ns_trans nsA) = pt0 + 3) by (pose proof (f_equal pt PA) as E; cbn [pos_of cond_p pt] in E; fold pt0 in E; exact E).
-  destruct (gen_block_go P HFP HfP il (List.length P) 0 pt0 [] ctx (S (S pt0)) nsA eq_refl OkA ltac:(lia) ltac:(lia))
+  destruct (gen_block_go P HFP HfP il (s_tn k) (s_path k ++ [0]) (List.length P) 0 pt0 [] ctx (S (S pt0)) nsA eq_refl OkA ltac:(lia) ltac:(lia))
     as (nsB & EB & GB & PB & OkB & WB).
+  change (mksi (s_tn k) (s_path k ++ [0]) 0) with (si_sub2 0 k) in EB, GB, PB, WB.
   rewrite PA in EB, GB, PB, WB. set (cp := cond_p p) in *.
   unfold nbind at 1. rewrite EB.
   rewrite (nbind_ok _ _ _ _ _ _ _ (add_output_eq _ _ _)).
@@ -981,12 +1032,12 @@ Proof.
     + destruct (gn_dict _ _ _ _ _ GB) as (d1 & D1 & K1).
       exists d1. unfold nsF, nsC. autorewrite with netops.
       rewrite D1. unfold nsA at 1. autorewrite with netops. split; [reflexivity|].
-      eapply Forall_impl; [|exact K1]. intros kv (k & E0 & Hk). exists k. split; [exact E0|].
+      eapply Forall_impl; [|exact K1]. intros kv (k9 & E0 & Hk). exists k9. split; [exact E0|].
       unfold nsA in Hk. autorewrite with netops in Hk. exact Hk.
     + unfold nsF, nsC. autorewrite with netops.
       rewrite (gn_rest _ _ _ _ _ GB). unfold nsA. autorewrite with netops. reflexivity.
-  - unfold nsF, nsC, pos_of. autorewrite with netops.
-    pose proof PB as E0. unfold pos_of in E0. rewrite E0. unfold adv_b, adv, cp, cond_p, p, pos_of. cbn [pp pt pa].
+  - rewrite (pos_of_same _ nsF nsB) by (unfold nsF, nsC; autorewrite with netops; reflexivity).
+    rewrite (pos_of_resite _ (si_next k) _ _ PB). unfold resite, adv_b, adv, cp, cond_p, p, pos_of. cbn [pp pt pa psi].
     rewrite nplaces_cond, ntrans_cond0, napis_cond. change (nplaces_l (@nil xstmt)) with 0. change (napis_l (@nil xstmt)) with 0.
     f_equal; lia.
   - destruct OkB as [E1 E2]. unfold nsF, nsC. split; autorewrite with netops; assumption.
@@ -1041,7 +1092,7 @@ Qed.
 Lemma gen_cond : forall e P F, Forall GenOK P -> Forall GenOK F -> GenOK (XCond e P F).
 Proof.
   intros e P F HFP HFF. destruct F as [|f0 fr]; [apply gen_cond0; exact HFP|].
-  intros Hf il ctx t1 t2 ns Hok H1 H2 p.
+  intros Hf il k ctx t1 t2 ns Hok H1 H2 p.
   apply frag_cond in Hf. destruct Hf as [HfP HfF].
   pose proof Hok as [Hcb Hfr].
   cbn [pg_stmt].
@@ -1056,14 +1107,15 @@ Proof.
   replace (pp0 + 1) with (S pp0) by lia. replace (S pp0 + 1) with (S (S pp0)) by lia.
   replace (S (S pp0) + 1) with (S (S (S pp0))) by lia.
   set (nsA := op_out _ _ _).
-  assert (PA : pos_of nsA = cond_p p).
-  { unfold nsA, pos_of, cond_p, p, pos_of. autorewrite with netops. rewrite !app_length. cbn [List.length pp pt pa].
+  assert (PA : pos_of (si_sub2 0 k) nsA = cond_p p).
+  { unfold nsA, pos_of, cond_p, p, pos_of. autorewrite with netops. rewrite !app_length. cbn [List.length pp pt pa psi].
     fold pp0 pt0 pa0. f_equal; lia. }
   assert (OkA : okns nsA).
   { unfold nsA. split; autorewrite with netops; [lia|exact Hfr]. }
   assert (LtA : List.length (ns_trans nsA) = pt0 + 3) by (pose proof (f_equal pt PA) as E; cbn [pos_of cond_p pt] in E; fold pt0 in E; exact E).
-  destruct (gen_block_go P HFP HfP il (List.length P) 0 pt0 [] ctx (S (S pt0)) nsA eq_refl OkA ltac:(lia) ltac:(lia))
+  destruct (gen_block_go P HFP HfP il (s_tn k) (s_path k ++ [0]) (List.length P) 0 pt0 [] ctx (S (S pt0)) nsA eq_refl OkA ltac:(lia) ltac:(lia))
     as (nsB & EB & GB & PB & OkB & WB).
+  change (mksi (s_tn k) (s_path k ++ [0]) 0) with (si_sub2 0 k) in EB, GB, PB, WB.
   rewrite PA in EB, GB, PB, WB. set (cp := cond_p p) in *.
   unfold nbind at 1. rewrite EB.
   rewrite (nbind_ok _ _ _ _ _ _ _ (add_output_eq _ _ _)).
@@ -1076,15 +1128,16 @@ Proof.
   assert (LtC : List.length (ns_trans nsC) = pt0 + 3 + ntrans_b P) by (unfold nsC; autorewrite with netops; exact LtB).
   rewrite LtC. set (sf := pt0 + 3 + ntrans_b P).
   set (nsD := op_trans nsC).
-  assert (PD : pos_of nsD = cond_f P p).
+  assert (PD : pos_of (si_sub2 1 k) nsD = cond_f P p).
   { unfold nsD, nsC, pos_of. autorewrite with netops.
     pose proof (f_equal pp PB) as E1. pose proof (f_equal pa PB) as E3. unfold pos_of, adv_b, cp, cond_p in E1, E3. cbn [pp pa] in E1, E3.
-    rewrite E1, E3, LtB. unfold cond_f, p, pos_of. cbn [pp pt pa]. fold pp0 pt0 pa0. f_equal; lia. }
+    rewrite E1, E3, LtB. unfold cond_f, p, pos_of. cbn [pp pt pa psi]. fold pp0 pt0 pa0. f_equal; lia. }
   assert (OkD : okns nsD).
   { destruct OkB as [B1 B2]. unfold nsD, nsC. split; autorewrite with netops; [lia|exact B2]. }
   assert (LtD : List.length (ns_trans nsD) = S sf) by (unfold nsD; autorewrite with netops; rewrite LtC; reflexivity).
-  destruct (gen_block_go (f0 :: fr) HFF HfF il (List.length (f0 :: fr)) 0 (S pt0) [] ctx sf nsD eq_refl OkD ltac:(lia) ltac:(lia))
+  destruct (gen_block_go (f0 :: fr) HFF HfF il (s_tn k) (s_path k ++ [1]) (List.length (f0 :: fr)) 0 (S pt0) [] ctx sf nsD eq_refl OkD ltac:(lia) ltac:(lia))
     as (nsE & EE & GE & PE & OkE & WE).
+  change (mksi (s_tn k) (s_path k ++ [1]) 0) with (si_sub2 1 k) in EE, GE, PE, WE.
   rewrite PD in EE, GE, PE, WE. set (cf := cond_f P p) in *.
   change (S (List.length fr)) with (List.length (f0 :: fr)).
   unfold nbind at 1. rewrite EE.
@@ -1180,15 +1233,15 @@ Proof.
       exists (d2 ++ d1). unfold nsF. autorewrite with netops. rewrite D2. unfold nsD, nsC. autorewrite with netops.
       rewrite D1. unfold nsA at 1. autorewrite with netops. split; [rewrite app_assoc; reflexivity|].
       apply Forall_app. split.
-      * eapply Forall_impl; [|exact K2]. intros kv (k & E0 & Hk). exists k. split; [exact E0|].
+      * eapply Forall_impl; [|exact K2]. intros kv (k9 & E0 & Hk). exists k9. split; [exact E0|].
         pose proof (gn_napi _ _ _ _ _ GB) as A2. unfold nsA in A2. autorewrite with netops in A2.
         unfold nsD, nsC in Hk. autorewrite with netops in Hk. lia.
-      * eapply Forall_impl; [|exact K1]. intros kv (k & E0 & Hk). exists k. split; [exact E0|].
+      * eapply Forall_impl; [|exact K1]. intros kv (k9 & E0 & Hk). exists k9. split; [exact E0|].
         unfold nsA in Hk. autorewrite with netops in Hk. exact Hk.
     + unfold nsF. autorewrite with netops. rewrite (gn_rest _ _ _ _ _ GE). unfold nsD, nsC. autorewrite with netops.
       rewrite (gn_rest _ _ _ _ _ GB). unfold nsA. autorewrite with netops. reflexivity.
-  - unfold nsF, pos_of. autorewrite with netops.
-    pose proof PE as E0. unfold pos_of in E0. rewrite E0. unfold adv_b, adv, cf, cond_f, p, pos_of. cbn [pp pt pa].
+  - rewrite (pos_of_same _ nsF nsE) by (unfold nsF; autorewrite with netops; reflexivity).
+    rewrite (pos_of_resite _ (si_next k) _ _ PE). unfold resite, adv_b, adv, cf, cond_f, p, pos_of. cbn [pp pt pa psi].
     rewrite nplaces_cond, ntrans_cond, napis_cond. f_equal; lia.
   - destruct OkE as [E1 E2]. unfold nsF. split; autorewrite with netops; assumption.
   - (* the wiring *)
@@ -1260,7 +1313,7 @@ Qed.
 
 Lemma gen_while : forall e B, Forall GenOK B -> GenOK (XWhile e B).
 Proof.
-  intros e B HFB Hf il ctx t1 t2 ns Hok H1 H2 p.
+  intros e B HFB Hf il k ctx t1 t2 ns Hok H1 H2 p.
   apply frag_while in Hf. rename Hf into HfB.
   pose proof Hok as [Hcb Hfr].
   cbn [pg_stmt].
@@ -1275,15 +1328,16 @@ Proof.
   replace (S (S pp0) + 1) with (S (S (S pp0))) by lia.
   replace (pt0 + 1) with (S pt0) by lia. replace (S pt0 + 1) with (S (S pt0)) by lia.
   set (nsA := op_place _).
-  assert (PA : pos_of nsA = cond_p p).
-  { unfold nsA, pos_of, cond_p, p, pos_of. autorewrite with netops. rewrite !app_length. cbn [List.length pp pt pa].
+  assert (PA : pos_of (si_sub k) nsA = loop_p p).
+  { unfold nsA, pos_of, loop_p, p, pos_of. autorewrite with netops. rewrite !app_length. cbn [List.length pp pt pa psi].
     fold pp0 pt0 pa0. f_equal; lia. }
   assert (OkA : okns nsA).
   { unfold nsA. split; autorewrite with netops; [lia|exact Hfr]. }
-  assert (LtA : List.length (ns_trans nsA) = pt0 + 3) by (pose proof (f_equal pt PA) as E; cbn [pos_of cond_p pt] in E; fold pt0 in E; exact E).
-  destruct (gen_block_go B HFB HfB true (List.length B) 0 pt0 [] ctx (S (S pt0)) nsA eq_refl OkA ltac:(lia) ltac:(lia))
+  assert (LtA : List.length (ns_trans nsA) = pt0 + 3) by (pose proof (f_equal pt PA) as E; cbn [pos_of loop_p pt] in E; fold pt0 in E; exact E).
+  destruct (gen_block_go B HFB HfB true (s_tn k) (s_path k) (List.length B) 0 pt0 [] ctx (S (S pt0)) nsA eq_refl OkA ltac:(lia) ltac:(lia))
     as (nsB & EB & GB & PB & OkB & WB).
-  rewrite PA in EB, GB, PB, WB. set (cp := cond_p p) in *.
+  change (mksi (s_tn k) (s_path k) 0) with (si_sub k) in EB, GB, PB, WB.
+  rewrite PA in EB, GB, PB, WB. set (cp := loop_p p) in *.
   unfold nbind at 1. rewrite EB.
   rewrite (nbind_ok _ _ _ _ _ _ _ (add_output_eq _ _ _)).
   rewrite (nbind_ok _ _ _ _ _ _ _ (add_input_eq _ _ _)).
@@ -1294,7 +1348,7 @@ Proof.
   set (nsC := op_cb (S (S pt0)) CW (op_cb t1 CW (op_in (S (S (S pp0))) t2 (op_out pp0 t1 nsB)))).
   set (nsF := op_out (S (S (S pp0))) (S pt0) nsC).
   assert (LtB : List.length (ns_trans nsB) = pt0 + 3 + ntrans_b B).
-  { pose proof (f_equal pt PB) as E. unfold pos_of, adv_b, cp, cond_p in E. cbn [pt] in E. fold pt0 in E. exact E. }
+  { pose proof (f_equal pt PB) as E. unfold pos_of, adv_b, cp, loop_p in E. cbn [pt] in E. fold pt0 in E. exact E. }
   assert (LtC : List.length (ns_trans nsC) = pt0 + 3 + ntrans_b B) by (unfold nsC; autorewrite with netops; exact LtB).
   unfold Gen in GB.
   assert (Rpre : forall j, j < pt0 + 3 ->
@@ -1329,9 +1383,9 @@ Proof.
     rewrite Hx, Hen, Hsc.
     unfold Gen. constructor.
     + assert (LpA : List.length (ns_places nsA) = pp0 + 4).
-      { pose proof (f_equal pp PA) as E4. unfold pos_of, cond_p, p, pos_of in E4. cbn [pp] in E4. fold pp0 in E4. exact E4. }
+      { pose proof (f_equal pp PA) as E4. unfold pos_of, loop_p, p, pos_of in E4. cbn [pp] in E4. fold pp0 in E4. exact E4. }
       assert (LpB : List.length (ns_places nsB) = pp0 + 4 + nplaces_l B).
-      { pose proof (f_equal pp PB) as E2. unfold pos_of, adv_b, cp, cond_p, p, pos_of in E2. cbn [pp] in E2. fold pp0 in E2. exact E2. }
+      { pose proof (f_equal pp PB) as E2. unfold pos_of, adv_b, cp, loop_p, p, pos_of in E2. cbn [pp] in E2. fold pp0 in E2. exact E2. }
       assert (QA : ns_places nsA = ns_places ns ++ repeat (Some 0) 4).
       { unfold nsA. autorewrite with netops. rewrite <- !app_assoc. reflexivity. }
       assert (QB : ns_places nsB = ns_places nsA ++ repeat (Some 0) (nplaces_l B)).
@@ -1365,12 +1419,12 @@ Proof.
     + destruct (gn_dict _ _ _ _ _ GB) as (d1 & D1 & K1).
       exists d1. unfold nsF, nsC. autorewrite with netops.
       rewrite D1. unfold nsA at 1. autorewrite with netops. split; [reflexivity|].
-      eapply Forall_impl; [|exact K1]. intros kv (k & E0 & Hk). exists k. split; [exact E0|].
+      eapply Forall_impl; [|exact K1]. intros kv (k9 & E0 & Hk). exists k9. split; [exact E0|].
       unfold nsA in Hk. autorewrite with netops in Hk. exact Hk.
     + unfold nsF, nsC. autorewrite with netops.
       rewrite (gn_rest _ _ _ _ _ GB). unfold nsA. autorewrite with netops. reflexivity.
-  - unfold nsF, nsC, pos_of. autorewrite with netops.
-    pose proof PB as E0. unfold pos_of in E0. rewrite E0. unfold adv_b, adv, cp, cond_p, p, pos_of. cbn [pp pt pa].
+  - rewrite (pos_of_same _ nsF nsB) by (unfold nsF, nsC; autorewrite with netops; reflexivity).
+    rewrite (pos_of_resite _ (si_next k) _ _ PB). unfold resite, adv_b, adv, cp, loop_p, p, pos_of. cbn [pp pt pa psi].
     rewrite nplaces_while, ntrans_while, napis_while. f_equal; lia.
   - destruct OkB as [E1 E2]. unfold nsF, nsC. split; autorewrite with netops; assumption.
   - (* the wiring *)
@@ -1414,13 +1468,180 @@ Proof.
          apply (GenF_op_out (S (S (S pp0))) (S pt0) nsC)]]]]|].
       intros j Hj. cbn beta. unfold fnil. cbn [app]. rewrite ?app_nil_r. repeat split; reflexivity. }
     eapply GenF_agree; [exact G| | |].
-    + intros j Hj. unfold cp, cond_p in Hj. cbn [pt] in Hj. rewrite Hpt in Hj.
+    + intros j Hj. unfold cp, loop_p in Hj. cbn [pt] in Hj. rewrite Hpt in Hj.
       assert (Q1 : Nat.eqb j t1 = false) by (apply Nat.eqb_neq; unfold pt0 in *; lia).
       assert (Q2 : Nat.eqb j t2 = false) by (apply Nat.eqb_neq; unfold pt0 in *; lia).
       assert (Q4 : Nat.eqb j (S pt0) = false) by (apply Nat.eqb_neq; lia).
       assert (Q5 : Nat.eqb j (S (S pt0)) = false) by (apply Nat.eqb_neq; lia).
       cbn beta. rewrite Q1, Q2, Q4, Q5. auto.
-    + unfold cp, cond_p. cbn [pt]. rewrite Hpt. lia.
+    + unfold cp, loop_p. cbn [pt]. rewrite Hpt. lia.
+    + pose proof (f_equal pa PB) as E0. unfold pos_of, adv_b in E0. cbn [pa] in E0. lia.
+Qed.
+
+Lemma gen_count : forall v lim B, Forall GenOK B -> GenOK (XCount v lim B).
+Proof.
+  intros v lim B HFB Hf il k ctx t1 t2 ns Hok H1 H2 p.
+  apply frag_count in Hf. rename Hf into HfB.
+  pose proof Hok as [Hcb Hfr].
+  cbn [pg_stmt].
+  do 3 rewrite (nbind_ok _ _ _ _ _ _ _ (create_place_eq _)).
+  do 3 rewrite (nbind_ok _ _ _ _ _ _ _ (create_transition_eq _)).
+  do 4 rewrite (nbind_ok _ _ _ _ _ _ _ (add_input_eq _ _ _)).
+  rewrite (nbind_ok _ _ _ _ _ _ _ (add_output_eq _ _ _)).
+  rewrite (nbind_ok _ _ _ _ _ _ _ (create_place_eq _)).
+  autorewrite with netops. rewrite !app_length. cbn [List.length].
+  set (pp0 := List.length (ns_places ns)). set (pt0 := List.length (ns_trans ns)). set (pa0 := List.length (ns_apis ns)).
+  replace (pp0 + 1) with (S pp0) by lia. replace (S pp0 + 1) with (S (S pp0)) by lia.
+  replace (S (S pp0) + 1) with (S (S (S pp0))) by lia.
+  replace (pt0 + 1) with (S pt0) by lia. replace (S pt0 + 1) with (S (S pt0)) by lia.
+  set (nsA := op_place _).
+  assert (PA : pos_of (si_sub k) nsA = loop_p p).
+  { unfold nsA, pos_of, loop_p, p, pos_of. autorewrite with netops. rewrite !app_length. cbn [List.length pp pt pa psi].
+    fold pp0 pt0 pa0. f_equal; lia. }
+  assert (OkA : okns nsA).
+  { unfold nsA. split; autorewrite with netops; [lia|exact Hfr]. }
+  assert (LtA : List.length (ns_trans nsA) = pt0 + 3) by (pose proof (f_equal pt PA) as E; cbn [pos_of loop_p pt] in E; fold pt0 in E; exact E).
+  destruct (gen_block_go B HFB HfB true (s_tn k) (s_path k) (List.length B) 0 pt0 [] ctx (S (S pt0)) nsA eq_refl OkA ltac:(lia) ltac:(lia))
+    as (nsB & EB & GB & PB & OkB & WB).
+  change (mksi (s_tn k) (s_path k) 0) with (si_sub k) in EB, GB, PB, WB.
+  rewrite PA in EB, GB, PB, WB. set (cp := loop_p p) in *.
+  unfold nbind at 1. rewrite EB.
+  rewrite (nbind_ok _ _ _ _ _ _ _ (add_output_eq _ _ _)).
+  rewrite (nbind_ok _ _ _ _ _ _ _ (add_output_eq _ _ _)).
+  rewrite (nbind_ok _ _ _ _ _ _ _ (add_input_eq _ _ _)).
+  rewrite (nbind_ok _ _ _ _ _ _ _ (add_callback_eq _ _ _)).
+  rewrite (nbind_ok _ _ _ _ _ _ _ (add_callback_eq _ _ _)). unfold nret.
+  set (CW := CbCount {| st_task := s_tn k; st_path := s_path k |} lim (S pp0) (S (S pp0)) ctx).
+  set (nsC := op_out (S (S (S pp0))) (S pt0) nsB).
+  set (nsF := op_cb (S (S pt0)) CW (op_cb t1 CW (op_in (S (S (S pp0))) t2 (op_out pp0 t1 nsC)))).
+  assert (LtB : List.length (ns_trans nsB) = pt0 + 3 + ntrans_b B).
+  { pose proof (f_equal pt PB) as E. unfold pos_of, adv_b, cp, loop_p in E. cbn [pt] in E. fold pt0 in E. exact E. }
+  assert (LtC : List.length (ns_trans nsC) = pt0 + 3 + ntrans_b B) by (unfold nsC; autorewrite with netops; exact LtB).
+  unfold Gen in GB.
+  assert (Rpre : forall j, j < pt0 + 3 ->
+             preN nsF j = preN nsA j ++ (if Nat.eqb j (S (S pt0)) then [xplace_b B cp] else [])
+                                     ++ (if Nat.eqb j t2 then [S (S (S pp0))] else [])).
+  { intros j Hj. unfold nsF, nsC. autorewrite with netops. rewrite (gn_pre _ _ _ _ _ GB j) by lia.
+    rewrite LtB. rewrite <- ?app_assoc. destruct (Nat.eqb_spec j t2); cbn [andb]; [rewrite (proj2 (Nat.ltb_lt t2 _)) by lia|]; reflexivity. }
+  assert (Rpost : forall j, j < pt0 + 3 ->
+             postN nsF j = postN nsA j ++ (if Nat.eqb j pt0 then entries_b B cp else [])
+                                       ++ (if Nat.eqb j t1 then [pp0] else [])
+                                       ++ (if Nat.eqb j (S pt0) then [S (S (S pp0))] else [])).
+  { intros j Hj. unfold nsF. autorewrite with netops. rewrite LtC.
+    unfold nsC. autorewrite with netops. rewrite (gn_post _ _ _ _ _ GB j) by lia.
+    rewrite LtB. rewrite <- !app_assoc. f_equal. f_equal.
+    destruct (Nat.eqb_spec j t1); destruct (Nat.eqb_spec j (S pt0)); cbn [andb]; rewrite ?(proj2 (Nat.ltb_lt _ _)) by lia; try reflexivity. lia. }
+  assert (Rcbs : forall j, j < pt0 + 3 ->
+             cbsN nsF j = cbsN nsA j ++ (if Nat.eqb j pt0 then startcbs_b B cp ctx else [])
+                                     ++ (if Nat.eqb j t1 then [CW] else [])
+                                     ++ (if Nat.eqb j (S (S pt0)) then [CW] else [])).
+  { intros j Hj. unfold nsF, nsC. autorewrite with netops. rewrite (gn_cbs _ _ _ _ _ GB j) by lia.
+    destruct OkB as [B1 _]. rewrite B1, LtB. rewrite <- !app_assoc. f_equal. f_equal.
+    destruct (Nat.eqb_spec j t1); destruct (Nat.eqb_spec j (S (S pt0))); cbn [andb]; rewrite ?(proj2 (Nat.ltb_lt _ _)) by lia; reflexivity. }
+  exists nsF. split.
+  { f_equal. f_equal. cbn [exits]. unfold p, pos_of. cbn [pt]. fold pt0. repeat (f_equal; try lia). }
+  split; [|split; [|split]].
+  - (* the frame *)
+    assert (Hx : xplace (XCount v lim B) p = S (S (S pp0))) by (cbn [xplace]; unfold p, pos_of; cbn [pp]; fold pp0; lia).
+    assert (Hen : entries (XCount v lim B) p = [pp0]) by reflexivity.
+    assert (Hsc : startcbs (XCount v lim B) p ctx = [CW]).
+    { cbn [startcbs]. unfold pkey, p, pos_of, CW. cbn [pp psi]. fold pp0. replace (pp0 + 1) with (S pp0) by lia.
+      replace (pp0 + 2) with (S (S pp0)) by lia. reflexivity. }
+    rewrite Hx, Hen, Hsc.
+    unfold Gen. constructor.
+    + assert (LpA : List.length (ns_places nsA) = pp0 + 4).
+      { pose proof (f_equal pp PA) as E4. unfold pos_of, loop_p, p, pos_of in E4. cbn [pp] in E4. fold pp0 in E4. exact E4. }
+      assert (LpB : List.length (ns_places nsB) = pp0 + 4 + nplaces_l B).
+      { pose proof (f_equal pp PB) as E2. unfold pos_of, adv_b, cp, loop_p, p, pos_of in E2. cbn [pp] in E2. fold pp0 in E2. exact E2. }
+      assert (QA : ns_places nsA = ns_places ns ++ repeat (Some 0) 4).
+      { unfold nsA. autorewrite with netops. rewrite <- !app_assoc. reflexivity. }
+      assert (QB : ns_places nsB = ns_places nsA ++ repeat (Some 0) (nplaces_l B)).
+      { rewrite (gn_places _ _ _ _ _ GB) at 1. rewrite LpB, LpA. f_equal. f_equal. lia. }
+      assert (QF : ns_places nsF = ns_places nsB) by (unfold nsF, nsC; autorewrite with netops; reflexivity).
+      rewrite QF, LpB. fold pp0. rewrite QB, QA. rewrite <- !app_assoc, <- !repeat_app. f_equal. f_equal. lia.
+    + unfold nsF, nsC. autorewrite with netops. fold pt0. lia.
+    + pose proof (gn_napi _ _ _ _ _ GB) as A2.
+      unfold nsF, nsC. autorewrite with netops.
+      unfold nsA in A2. autorewrite with netops in A2. lia.
+    + intros j Hj. unfold nsF, nsC. autorewrite with netops.
+      rewrite (gn_apis _ _ _ _ _ GB) by (unfold nsA; autorewrite with netops; exact Hj).
+      unfold nsA. autorewrite with netops. reflexivity.
+    + intros j Hj. fold pt0 in Hj. rewrite (Rpre j) by lia.
+      assert (E1 : Nat.eqb j (S (S pt0)) = false) by (apply Nat.eqb_neq; lia). rewrite E1. cbn [app].
+      unfold nsA. autorewrite with netops. fold pt0.
+      assert (E2 : Nat.eqb j pt0 = false) by (apply Nat.eqb_neq; lia).
+      assert (E3 : Nat.eqb j (S pt0) = false) by (apply Nat.eqb_neq; lia).
+      rewrite ?E2, ?E3. cbn [andb]. rewrite ?app_nil_r. reflexivity.
+    + intros j Hj. fold pt0 in Hj. rewrite (Rpost j) by lia.
+      assert (E1 : Nat.eqb j (S (S pt0)) = false) by (apply Nat.eqb_neq; lia).
+      assert (E2 : Nat.eqb j pt0 = false) by (apply Nat.eqb_neq; lia).
+      assert (E3 : Nat.eqb j (S pt0) = false) by (apply Nat.eqb_neq; lia).
+      rewrite E2, E3. cbn [app]. rewrite app_nil_r.
+      unfold nsA. autorewrite with netops. fold pt0. rewrite ?E1. cbn [andb]. rewrite ?app_nil_r. reflexivity.
+    + intros j Hj. fold pt0 in Hj. rewrite (Rcbs j) by lia.
+      assert (E1 : Nat.eqb j (S (S pt0)) = false) by (apply Nat.eqb_neq; lia).
+      assert (E2 : Nat.eqb j pt0 = false) by (apply Nat.eqb_neq; lia).
+      rewrite E1, E2. cbn [app]. rewrite app_nil_r.
+      unfold nsA. autorewrite with netops. reflexivity.
+    + destruct (gn_dict _ _ _ _ _ GB) as (d1 & D1 & K1).
+      exists d1. unfold nsF, nsC. autorewrite with netops.
+      rewrite D1. unfold nsA at 1. autorewrite with netops. split; [reflexivity|].
+      eapply Forall_impl; [|exact K1]. intros kv (k9 & E0 & Hk). exists k9. split; [exact E0|].
+      unfold nsA in Hk. autorewrite with netops in Hk. exact Hk.
+    + unfold nsF, nsC. autorewrite with netops.
+      rewrite (gn_rest _ _ _ _ _ GB). unfold nsA. autorewrite with netops. reflexivity.
+  - rewrite (pos_of_same _ nsF nsB) by (unfold nsF, nsC; autorewrite with netops; reflexivity).
+    rewrite (pos_of_resite _ (si_next k) _ _ PB). unfold resite, adv_b, adv, cp, loop_p, p, pos_of. cbn [pp pt pa psi].
+    rewrite nplaces_count, ntrans_count, napis_count. f_equal; lia.
+  - destruct OkB as [E1 E2]. unfold nsF, nsC. split; autorewrite with netops; assumption.
+  - (* the wiring *)
+    assert (Hp : pt p = pt0 /\ pp p = pp0) by (split; reflexivity). destruct Hp as [Hpt Hpp].
+    cbn [wired]. rewrite Hpt, Hpp. fold cp.
+    replace (pt0 + 1) with (S pt0) by lia. replace (pt0 + 2) with (S (S pt0)) by lia.
+    replace (pp0 + 1) with (S pp0) by lia. replace (pp0 + 2) with (S (S pp0)) by lia. replace (pp0 + 3) with (S (S (S pp0))) by lia.
+    replace (pkey p) with {| st_task := s_tn k; st_path := s_path k |} by reflexivity. fold CW.
+    assert (Et1a : Nat.eqb pt0 t1 = false) by (apply Nat.eqb_neq; unfold pt0; lia).
+    assert (Et1b : Nat.eqb (S pt0) t1 = false) by (apply Nat.eqb_neq; unfold pt0; lia).
+    assert (Et1c : Nat.eqb (S (S pt0)) t1 = false) by (apply Nat.eqb_neq; unfold pt0; lia).
+    assert (Et2a : Nat.eqb pt0 t2 = false) by (apply Nat.eqb_neq; unfold pt0; lia).
+    assert (Et2b : Nat.eqb (S pt0) t2 = false) by (apply Nat.eqb_neq; unfold pt0; lia).
+    assert (Et2c : Nat.eqb (S (S pt0)) t2 = false) by (apply Nat.eqb_neq; unfold pt0; lia).
+    rewrite (Rpre pt0), (Rpost pt0), (Rcbs pt0), (Rpre (S pt0)), (Rpost (S pt0)), (Rcbs (S pt0)),
+            (Rpre (S (S pt0))), (Rpost (S (S pt0))), (Rcbs (S (S pt0))) by lia.
+    unfold nsA. autorewrite with netops. fold pt0.
+    rewrite (preN_beyond ns), (postN_beyond ns), (cbsN_beyond ns) by (unfold pt0 in *; lia).
+    rewrite (preN_beyond ns (S pt0)), (postN_beyond ns (S pt0)), (cbsN_beyond ns (S pt0)) by (unfold pt0 in *; lia).
+    rewrite (preN_beyond ns (S (S pt0))), (postN_beyond ns (S (S pt0))), (cbsN_beyond ns (S (S pt0))) by (unfold pt0 in *; lia).
+    rewrite ?Nat.eqb_refl, ?Et1a, ?Et1b, ?Et1c, ?Et2a, ?Et2b, ?Et2c.
+    replace (Nat.eqb pt0 (S pt0)) with false by (symmetry; apply Nat.eqb_neq; lia).
+    replace (Nat.eqb pt0 (S (S pt0))) with false by (symmetry; apply Nat.eqb_neq; lia).
+    replace (Nat.eqb (S pt0) pt0) with false by (symmetry; apply Nat.eqb_neq; lia).
+    replace (Nat.eqb (S pt0) (S (S pt0))) with false by (symmetry; apply Nat.eqb_neq; lia).
+    replace (Nat.eqb (S (S pt0)) pt0) with false by (symmetry; apply Nat.eqb_neq; lia).
+    replace (Nat.eqb (S (S pt0)) (S pt0)) with false by (symmetry; apply Nat.eqb_neq; lia).
+    cbn [andb app].
+    rewrite ?(proj2 (Nat.ltb_lt _ _)) by lia. cbn [app]. rewrite ?app_nil_r.
+    repeat (split; [reflexivity|]).
+    (* the body survives what follows *)
+    apply (wired_block_ext nsB nsF B HfB cp ctx []); [|exact WB].
+    assert (G : GenF nsB nsF (fun j => if Nat.eqb j t2 then [S (S (S pp0))] else [])
+                     (fun j => (if Nat.eqb j (S pt0) then [S (S (S pp0))] else []) ++ (if Nat.eqb j t1 then [pp0] else []))
+                     (fun j => (if Nat.eqb j t1 then [CW] else []) ++ (if Nat.eqb j (S (S pt0)) then [CW] else []))).
+    { eapply GenF_ext;
+        [eapply GenF_trans; [apply (GenF_op_out (S (S (S pp0))) (S pt0) nsB)|
+         eapply GenF_trans; [apply (GenF_op_out pp0 t1 nsC)|
+         eapply GenF_trans; [apply (GenF_op_in (S (S (S pp0))) t2)|
+         eapply GenF_trans; [apply (GenF_op_cb t1 CW); unfold nsC; autorewrite with netops; apply OkB|
+         apply (GenF_op_cb (S (S pt0)) CW); unfold nsC; autorewrite with netops; apply OkB]]]]|].
+      intros j Hj. cbn beta. unfold fnil. cbn [app]. rewrite ?app_nil_r. repeat split; reflexivity. }
+    eapply GenF_agree; [exact G| | |].
+    + intros j Hj. unfold cp, loop_p in Hj. cbn [pt] in Hj. rewrite Hpt in Hj.
+      assert (Q1 : Nat.eqb j t1 = false) by (apply Nat.eqb_neq; unfold pt0 in *; lia).
+      assert (Q2 : Nat.eqb j t2 = false) by (apply Nat.eqb_neq; unfold pt0 in *; lia).
+      assert (Q4 : Nat.eqb j (S pt0) = false) by (apply Nat.eqb_neq; lia).
+      assert (Q5 : Nat.eqb j (S (S pt0)) = false) by (apply Nat.eqb_neq; lia).
+      cbn beta. rewrite Q1, Q2, Q4, Q5. auto.
+    + unfold cp, loop_p. cbn [pt]. rewrite Hpt. lia.
     + pose proof (f_equal pa PB) as E0. unfold pos_of, adv_b in E0. cbn [pa] in E0. lia.
 Qed.
 
@@ -1428,23 +1649,24 @@ Theorem gen_ok : forall s, GenOK s.
 Proof.
   induction s as [n a i|t a i body IH|bs IH|e p f IHp IHf|e b IH|v l b IH|v l c IH] using xstmt_ind';
     try (intro Hf; discriminate Hf).
-  - intros Hf il ctx t1 t2 ns Hok H1 H2 p. cbn [pg_stmt]. apply gen_service; assumption.
+  - intros Hf il k ctx t1 t2 ns Hok H1 H2 p. cbn [pg_stmt]. apply gen_service; assumption.
   - apply gen_call. exact IH.
   - apply gen_par. exact IH.
   - apply gen_cond; assumption.
   - apply gen_while; assumption.
+  - apply gen_count; assumption.
 Qed.
 
 Theorem gen_block : forall body, frag_block body = true ->
-    forall il ctx first last ns,
+    forall il tn pre ctx first last ns,
       okns ns -> first < List.length (ns_trans ns) -> last < List.length (ns_trans ns) ->
-      let p := pos_of ns in
-      exists ns', pg_block il ctx body first last ns = Ok (exits_b body p, ns') /\
+      let p := pos_of (mksi tn pre 0) ns in
+      exists ns', pg_block il tn pre ctx body first last ns = Ok (exits_b body p, ns') /\
                   Gen ns ns' first last (entries_b body p) (startcbs_b body p ctx) [xplace_b body p] /\
-                  pos_of ns' = adv_b body p /\ okns ns' /\ wired_block (wired ns') ns' ctx [] body p.
+                  pos_of (mksi tn pre (List.length body)) ns' = adv_b body p /\ okns ns' /\ wired_block (wired ns') ns' ctx [] body p.
 Proof.
-  intros body Hf il ctx first last ns Hok H1 H2 p. unfold pg_block.
-  apply gen_block_go; try assumption; [|reflexivity].
+  intros body Hf il tn pre ctx first last ns Hok H1 H2 p. unfold pg_block.
+  apply (gen_block_go body) with (i := 0) (n := List.length body); try assumption; [|reflexivity].
   apply Forall_forall. intros s _. apply gen_ok.
 Qed.
 
@@ -1620,6 +1842,32 @@ Section Copies.
          add_output ldone cf ;;~
          nret [cf])%net.
   Proof. reflexivity. Qed.
+  Lemma unfold_stmt_S_count : forall f' tn path v lim body,
+      unfold_stmt tasks (S f') tn path (SCount false v lim body)
+      = rbind (ublock f' tn path 0 body) (fun xb => Ok (XCount v lim xb)).
+  Proof. reflexivity. Qed.
+  Lemma generate_stmt_S_count : forall f' ctx tn path v lim body t1 t2 il,
+      generate_stmt tasks (S f') ctx tn path (SCount false v lim body) t1 t2 il
+      = (loop_p <~ create_place ;;
+         then_p <~ create_place ;;
+         else_p <~ create_place ;;
+         cp <~ create_transition ;;
+         cf <~ create_transition ;;
+         it <~ create_transition ;;
+         add_input loop_p cp ;;~
+         add_input then_p cp ;;~
+         add_input loop_p cf ;;~
+         add_input else_p cf ;;~
+         add_output loop_p it ;;~
+         ldone <~ create_place ;;
+         generate_statements tasks f' ctx tn path body cp it true ;;~
+         add_output ldone cf ;;~
+         add_output loop_p t1 ;;~
+         add_input ldone t2 ;;~
+         add_callback t1 (CbCount (site_of tn path) lim then_p else_p ctx) ;;~
+         add_callback it (CbCount (site_of tn path) lim then_p else_p ctx) ;;~
+         nret [cf])%net.
+  Proof. reflexivity. Qed.
   Lemma unfold_program_eq : forall f,
       unfold_program tasks f =
       match find_task production_task tasks with
@@ -1637,17 +1885,19 @@ Proof. intros A B [a| | |] f y H; try discriminate H. exists a. split; [reflexiv
 Lemma unfold_frag_shape : forall tasks f' tn path s x,
     unfold_stmt tasks (S f') tn path s = Ok x -> frag x = true ->
     (exists n ins o, s = SService n ins o) \/ (exists c, s = SCall c) \/ (exists cs, s = SParallel cs) \/
-    (exists e p fl, s = SCond e p fl) \/ (exists e body, s = SWhile e body).
+    (exists e p fl, s = SCond e p fl) \/ (exists e body, s = SWhile e body) \/
+    (exists v lim body, s = SCount false v lim body).
 Proof.
   intros tasks f' tn path s x H Hf. destruct s as [n ins o|c|cs|e body|par v lim body|e p fl].
   - left. eauto.
   - right. left. eauto.
   - right. right. left. eauto.
-  - right. right. right. right. eauto.
-  - exfalso. cbn [unfold_stmt] in H. destruct par.
-    + destruct body as [|[ | | | | | ] [|]]; try discriminate H.
+  - right. right. right. right. left. eauto.
+  - destruct par.
+    + exfalso. cbn [unfold_stmt] in H.
+      destruct body as [|[ | | | | | ] [|]]; try discriminate H.
       apply rbind_ok_inv in H. destruct H as (b & _ & H). inversion H; subst. discriminate Hf.
-    + apply rbind_ok_inv in H. destruct H as (b & _ & H). inversion H; subst. discriminate Hf.
+    + right. right. right. right. right. eauto.
   - right. right. right. left. eauto.
 Qed.
 
@@ -1659,6 +1909,7 @@ Fixpoint need (s : xstmt) : nat :=
   | XParallel bs => 1 + list_max (map need bs)
   | XCond _ P F => 2 + Nat.max (list_max (map need P)) (list_max (map need F))
   | XWhile _ B => 2 + list_max (map need B)
+  | XCount _ _ B => 2 + list_max (map need B)
   | _ => 0
   end.
 Definition need_l (l : list xstmt) : nat := list_max (map need l).
@@ -1674,17 +1925,23 @@ Lemma nbind_cong : forall A B (m m' : NetModel.N A) (k k' : A -> NetModel.N B) s
     m s = m' s -> (forall a s1, k a s1 = k' a s1) -> nbind m k s = nbind m' k' s.
 Proof. intros A B m m' k k' s Hm Hk. unfold nbind. rewrite Hm. destruct (m' s) as [[a s1]| | |]; auto. Qed.
 
+Lemma find_task_name : forall n ts t, find_task n ts = Some t -> t_name t = n.
+Proof.
+  induction ts as [|t0 r IH]; intros t H; cbn [find_task] in H; [discriminate H|].
+  destruct (Nat.eqb_spec n (t_name t0)) as [E|_]; [injection H as <-; symmetry; exact E|apply IH; exact H].
+Qed.
+
 Section WalkEq.
   Variable tasks : list task.
 
   Definition P_stmt (fu : nat) : Prop :=
-    forall il tn path s x, unfold_stmt tasks fu tn path s = Ok x -> frag x = true ->
+    forall il tn pre i s x, unfold_stmt tasks fu tn (pre ++ [i]) s = Ok x -> frag x = true ->
       forall g ctx t1 t2 ns, need x <= g ->
-        generate_stmt tasks g ctx tn path s t1 t2 il ns = pg_stmt il ctx x t1 t2 ns.
+        generate_stmt tasks g ctx tn (pre ++ [i]) s t1 t2 il ns = pg_stmt il (mksi tn pre i) ctx x t1 t2 ns.
   Definition P_call (fu : nat) : Prop :=
-    forall il tn pth c x, udo_call tasks fu tn pth c = Ok x -> frag x = true ->
+    forall il tn pre i c x, udo_call tasks fu tn (pre ++ [i]) c = Ok x -> frag x = true ->
       forall g ctx t1 t2 ns, need x <= S g ->
-        generate_task_call tasks g c (site_of tn pth) ctx t1 t2 il ns = pg_stmt il ctx x t1 t2 ns.
+        generate_task_call tasks g c (site_of tn (pre ++ [i])) ctx t1 t2 il ns = pg_stmt il (mksi tn pre i) ctx x t1 t2 ns.
 
   Lemma ucall_blk_length : forall fu tn ss i xs,
       ucall_blk tasks fu tn i ss = Ok xs -> List.length xs = List.length ss.
@@ -1701,7 +1958,7 @@ Section WalkEq.
         i + List.length ss = n ->
         forall prev acc ns, (i = 0 -> prev = first) ->
           gs_go tasks g a tn [] n first last il i ss prev acc ns
-          = pg_block_go (pg_stmt il) a n last i xs prev acc ns.
+          = pg_block_go (pg_stmt il) tn [] a n last i xs prev acc ns.
   Proof.
     intros fu HP il g a tn n first last. induction ss as [|s r IH]; intros i xs H Hf Hn Hlen prev acc ns Hprev;
       cbn [ucall_blk] in H.
@@ -1711,9 +1968,9 @@ Section WalkEq.
       rewrite need_l_cons in Hn. cbn [gs_go pg_block_go]. apply nbind_ext. intros cur s1.
       assert (Epr : (if Nat.ltb 1 n then prev else first) = prev).
       { destruct (Nat.ltb_spec 1 n); [reflexivity|]. cbn [List.length] in Hlen. symmetry. apply Hprev. lia. }
-      cbv zeta. rewrite Epr. cbn [app].
-      unfold nbind. rewrite (HP il tn [i] s x Hx Hfx g a prev cur s1) by lia.
-      destruct (pg_stmt il a x prev cur s1) as [[ex s2]| | |]; try reflexivity.
+      cbv zeta. rewrite Epr.
+      unfold nbind. rewrite (HP il tn [] i s x Hx Hfx g a prev cur s1) by lia.
+      destruct (pg_stmt il (mksi tn [] i) a x prev cur s1) as [[ex s2]| | |]; try reflexivity.
       apply IH; try assumption; try lia. cbn [List.length] in Hlen. lia.
   Qed.
 
@@ -1732,7 +1989,7 @@ Section WalkEq.
         i + List.length ss = n ->
         forall prev acc ns, (i = 0 -> prev = first) ->
           gs_go tasks g a tn pre n first last il i ss prev acc ns
-          = pg_block_go (pg_stmt il) a n last i xs prev acc ns.
+          = pg_block_go (pg_stmt il) tn pre a n last i xs prev acc ns.
   Proof.
     intros fu HP il g a tn pre n first last. induction ss as [|s r IH]; intros i xs H Hf Hn Hlen prev acc ns Hprev;
       cbn [ublock] in H.
@@ -1743,21 +2000,22 @@ Section WalkEq.
       assert (Epr : (if Nat.ltb 1 n then prev else first) = prev).
       { destruct (Nat.ltb_spec 1 n); [reflexivity|]. cbn [List.length] in Hlen. symmetry. apply Hprev. lia. }
       cbv zeta. rewrite Epr.
-      unfold nbind. rewrite (HP il tn (pre ++ [i]) s x Hx Hfx g a prev cur s1) by lia.
-      destruct (pg_stmt il a x prev cur s1) as [[ex s2]| | |]; try reflexivity.
+      unfold nbind. rewrite (HP il tn pre i s x Hx Hfx g a prev cur s1) by lia.
+      destruct (pg_stmt il (mksi tn pre i) a x prev cur s1) as [[ex s2]| | |]; try reflexivity.
       apply IH; try assumption; try lia. cbn [List.length] in Hlen. lia.
   Qed.
 
   Lemma A_call : forall fu, P_stmt fu -> P_call fu.
   Proof.
-    intros fu HP il tn pth c x H Hf g ctx t1 t2 ns Hg. unfold udo_call in H.
+    intros fu HP il tn pre i c x H Hf g ctx t1 t2 ns Hg. unfold udo_call in H.
     destruct (find_task (c_name c) tasks) as [t|] eqn:Ft; [|discriminate H].
+    pose proof (find_task_name _ _ _ Ft) as En.
     apply rbind_ok_inv in H. destruct H as (body & Hb & H). inversion H; subst x. clear H.
     pose proof (frag_call _ _ _ _ Hf) as [_ Hfb].
     assert (Hfa : forallb frag body = true) by (destruct body; [discriminate Hfb|exact Hfb]).
     cbn [need] in Hg. fold (need_l body) in Hg.
     destruct g as [|[|g2]]; try lia.
-    rewrite generate_task_call_S, Ft. cbn [pg_stmt].
+    rewrite generate_task_call_S, Ft. cbn [pg_stmt]. rewrite <- En.
     apply nbind_ext. intros u s1. apply nbind_ext. intros a s2. apply nbind_ext. intros _ s3.
     rewrite generate_statements_S. rewrite <- (ucall_blk_length _ _ _ _ _ Hb).
     assert (Hl : 0 + List.length (t_body t) = List.length body).
@@ -1770,32 +2028,36 @@ Section WalkEq.
   Lemma A_calls : forall fu, P_call fu ->
       forall il g ctx tn path t1 sync cs i xs,
         ucalls tasks fu tn path i cs = Ok xs -> frag_brs xs = true -> need_l xs <= S g ->
-        forall ns, gp_calls tasks g ctx tn path t1 sync il i cs ns = pg_calls (pg_stmt il) ctx t1 sync xs ns.
+        forall ns, gp_calls tasks g ctx tn path t1 sync il i cs ns = pg_calls (pg_stmt il) tn path ctx t1 sync i xs ns.
   Proof.
     intros fu HP il g ctx tn path t1 sync. induction cs as [|c r IH]; intros i xs H Hf Hn ns; cbn [ucalls] in H.
     - inversion H; subst. reflexivity.
     - apply rbind_ok_inv in H. destruct H as (x & Hx & H). apply rbind_ok_inv in H. destruct H as (xs' & Hxs & H).
       inversion H; subst xs. clear H. apply frag_brs_cons in Hf. destruct Hf as (_ & Hfx & Hfxs).
       rewrite need_l_cons in Hn. cbn [gp_calls pg_calls]. unfold nbind.
-      rewrite (HP il tn (path ++ [i]) c x Hx Hfx g ctx t1 sync ns) by lia.
-      destruct (pg_stmt il ctx x t1 sync ns) as [[ex s2]| | |]; try reflexivity.
+      rewrite (HP il tn path i c x Hx Hfx g ctx t1 sync ns) by lia.
+      destruct (pg_stmt il (mksi tn path i) ctx x t1 sync ns) as [[ex s2]| | |]; try reflexivity.
       apply IH; try assumption. lia.
   Qed.
 
   Theorem A_stmt : forall fu, P_stmt fu.
   Proof.
-    induction fu as [|fu IH]; [intros il tn path s x H; discriminate H|].
+    induction fu as [|fu IH]; [intros il tn pre i s x H; discriminate H|].
     pose proof (A_call fu IH) as HC.
-    intros il tn path s x H Hf g ctx t1 t2 ns Hg.
-    destruct (unfold_frag_shape _ _ _ _ _ _ H Hf) as [(n & ins & o & ->)|[(c & ->)|[(cs & ->)|[(e & p & fl & ->)|(e & wb & ->)]]]].
+    intros il tn pre i s x H Hf g ctx t1 t2 ns Hg.
+    change (s_path (mksi tn pre i)) with (pre ++ [i]).
+    set (path := pre ++ [i]) in *.
+    assert (Ek1 : s_tn (mksi tn pre i) = tn) by reflexivity.
+    assert (Ek2 : s_path (mksi tn pre i) = path) by reflexivity.
+    destruct (unfold_frag_shape _ _ _ _ _ _ H Hf) as [(n & ins & o & ->)|[(c & ->)|[(cs & ->)|[(e & p & fl & ->)|[(e & wb & ->)|(cv & clim & wb & ->)]]]]].
     - rewrite unfold_stmt_S_service in H. inversion H; subst x. cbn [need] in Hg.
       destruct g as [|g']; [lia|]. rewrite generate_stmt_S_service. reflexivity.
     - rewrite unfold_stmt_S_call in H.
       assert (1 <= need x) by (destruct x; try discriminate Hf; cbn [need]; lia).
-      destruct g as [|g']; [lia|]. rewrite generate_stmt_S_call. apply (HC il tn path c x H Hf). lia.
+      destruct g as [|g']; [lia|]. rewrite generate_stmt_S_call. apply (HC il tn pre i c x H Hf). lia.
     - rewrite unfold_stmt_S_par in H. apply rbind_ok_inv in H. destruct H as (bs & Hbs & H). inversion H; subst x. clear H.
       cbn [need] in Hg. fold (need_l bs) in Hg. destruct g as [|g']; [lia|].
-      rewrite generate_stmt_S_par. cbn [pg_stmt].
+      rewrite generate_stmt_S_par. cbn [pg_stmt]. rewrite ?Ek1, ?Ek2.
       apply nbind_ext. intros sync s1. apply nbind_ext. intros pfin s2.
       unfold nbind. rewrite (A_calls fu HC il g' ctx tn path t1 sync cs 0 bs Hbs (proj2 (frag_par _ Hf)) ltac:(lia)).
       reflexivity.
@@ -1805,7 +2067,7 @@ Section WalkEq.
       assert (HfaP : forallb frag xp = true) by (destruct xp; [discriminate HfP|exact HfP]).
       cbn [need] in Hg. fold (need_l xp) in Hg. fold (need_l xf) in Hg.
       destruct g as [|[|g2]]; try lia.
-      rewrite generate_stmt_S_cond. cbn [pg_stmt].
+      rewrite generate_stmt_S_cond. cbn [pg_stmt]. rewrite ?Ek1, ?Ek2.
       apply nbind_ext; intros passed s1. apply nbind_ext; intros failed s2. apply nbind_ext; intros expr_p s3.
       apply nbind_ext; intros fp s4. apply nbind_ext; intros ff s5.
       apply nbind_ext; intros _ s6. apply nbind_ext; intros _ s7. apply nbind_ext; intros _ s8. apply nbind_ext; intros _ s9.
@@ -1829,7 +2091,21 @@ Section WalkEq.
       assert (HfaB : forallb frag xb = true) by (destruct xb; [discriminate HfB|exact HfB]).
       cbn [need] in Hg. fold (need_l xb) in Hg.
       destruct g as [|[|g2]]; try lia.
-      rewrite generate_stmt_S_while. cbn [pg_stmt].
+      rewrite generate_stmt_S_while. cbn [pg_stmt]. rewrite ?Ek1, ?Ek2.
+      apply nbind_ext; intros loop_p s1. apply nbind_ext; intros then_p s2. apply nbind_ext; intros else_p s3.
+      apply nbind_ext; intros cp s4. apply nbind_ext; intros cf s5. apply nbind_ext; intros it s6.
+      apply nbind_ext; intros _ s7. apply nbind_ext; intros _ s8. apply nbind_ext; intros _ s9. apply nbind_ext; intros _ s10.
+      apply nbind_ext; intros _ s11. apply nbind_ext; intros ldone s12.
+      rewrite generate_statements_S. rewrite <- (ublock_length _ _ _ _ _ _ Hb).
+      assert (HlB : 0 + List.length wb = List.length xb) by (rewrite (ublock_length _ _ _ _ _ _ Hb); reflexivity).
+      apply nbind_cong; [|intros; reflexivity].
+      apply (A_ublk fu IH true g2 ctx tn path (List.length xb) cp it wb 0 xb Hb HfaB ltac:(lia) HlB cp [] s12 (fun _ => eq_refl)).
+    - rewrite unfold_stmt_S_count in H. apply rbind_ok_inv in H. destruct H as (xb & Hb & H). inversion H; subst x. clear H.
+      pose proof (frag_count _ _ _ Hf) as HfB.
+      assert (HfaB : forallb frag xb = true) by (destruct xb; [discriminate HfB|exact HfB]).
+      cbn [need] in Hg. fold (need_l xb) in Hg.
+      destruct g as [|[|g2]]; try lia.
+      rewrite generate_stmt_S_count. cbn [pg_stmt]. rewrite ?Ek1, ?Ek2.
       apply nbind_ext; intros loop_p s1. apply nbind_ext; intros then_p s2. apply nbind_ext; intros else_p s3.
       apply nbind_ext; intros cp s4. apply nbind_ext; intros cf s5. apply nbind_ext; intros it s6.
       apply nbind_ext; intros _ s7. apply nbind_ext; intros _ s8. apply nbind_ext; intros _ s9. apply nbind_ext; intros _ s10.
@@ -1844,7 +2120,7 @@ End WalkEq.
 (* =========================================================================== *)
 (* the whole net                                                                *)
 (* =========================================================================== *)
-Definition p0 : pos := mkpos 2 2 1.
+Definition p0 : pos := mkpos 2 2 1 (si_task production_task).
 Definition root_api : api :=
   {| a_is_task := true; a_name := production_task; a_site := root_site; a_uuid := ITest 0; a_ctx := None;
      a_in_loop := false; a_params := []; a_src := []; a_has_call := false |}.
@@ -1905,7 +2181,7 @@ Proof.
 Qed.
 
 Lemma ns_pre_facts :
-  pos_of ns_pre = p0 /\ okns ns_pre /\
+  pos_of (si_task production_task) ns_pre = p0 /\ okns ns_pre /\
   preN ns_pre 0 = [0] /\ postN ns_pre 0 = [] /\ cbsN ns_pre 0 = [CbTS 0] /\
   preN ns_pre 1 = [] /\ postN ns_pre 1 = [] /\ cbsN ns_pre 1 = [] /\
   nth_error (ns_apis ns_pre) 0 = Some root_api /\ ns_place_dict ns_pre = [] /\
@@ -1952,14 +2228,15 @@ Proof.
   assert (Hfa : forallb frag body = true) by (destruct body; [discriminate Hf|exact Hf]).
   assert (Hl : 0 + List.length (t_body t) = List.length body).
   { rewrite (ucall_blk_length _ _ _ _ _ _ Hu). reflexivity. }
-  destruct (gen_block body Hf false 0 0 1 ns_pre Okpre ltac:(lia) ltac:(lia)) as (ns2 & E2 & G2 & P2 & Ok2 & W2).
+  destruct (gen_block body Hf false production_task [] 0 0 1 ns_pre Okpre ltac:(lia) ltac:(lia)) as (ns2 & E2 & G2 & P2 & Ok2 & W2).
+  change (mksi production_task [] 0) with (si_task production_task) in E2, G2, P2, W2.
   rewrite Ppre in E2, G2, P2, W2.
   unfold net_init. rewrite (generate_petri_net_eq tasks 200 t Ft).
   change 200 with (S 199) at 1. rewrite generate_statements_S.
   rewrite <- (ucall_blk_length _ _ _ _ _ _ Hu).
   rewrite (A_blk tasks fu (A_stmt tasks fu) false 199 0 production_task (List.length body) 0 1 (t_body t) 0 body Hu Hfa
                  ltac:(lia) Hl 0 [] ns_pre (fun _ => eq_refl)).
-  fold (pg_block false 0 body 0 1). rewrite E2.
+  fold (pg_block false production_task [] 0 body 0 1). rewrite E2.
   set (N := op_sf 0 1 (op_cb 1 (CbTF 0) (op_out 1 1 ns2))).
   exists N. split; [reflexivity|].
   unfold Gen in G2.
